@@ -1,5 +1,7 @@
 import WcModel.Driver.Parse
 import WcModel.Model.GlobWalk
+import WcModel.Model.Match
+import WcModel.Spec.Denotes
 /-
   Driver commands for the glob walker (stream K5), `matchReal` (K6) and `DenotesB`.
 
@@ -133,7 +135,73 @@ def handleGlob : List String → Option String
       pure (" ".intercalate ("ok" :: evs.map encEv))
   | _ => none
 
+def encSpans (g : List (Option (Nat × Nat))) : String :=
+  ",".intercalate (g.map (fun x => match x with | some (a, b) => s!"{a}-{b}" | none => "n"))
+
+/-- `recap <parseFlags> <isBytes> <pattern> <name>…` → `ok spans;spans;…` where each `spans` is
+    `-` (no match) or the `,`-joined group spans `a-b` / `n` of `re.fullmatch` (K6: `Re.runCap`) -/
+def handleRecap : List String → Option String
+  | fl :: b :: p :: names => do
+    let flags ← fl.toNat?
+    let isBytes ← decBool b
+    let pat ← decStr p
+    match Driver.parsePattern flags isBytes pat with
+    | .error _ => pure "err ValueError"
+    | .ok parsed =>
+      match parsed.toRe with
+      | none => pure "err ReError"
+      | some r =>
+        let ns ← names.mapM decStr
+        pure ("ok " ++ ";".intercalate (ns.map (fun n =>
+          match r.fullmatchCap n with
+          | none => "-"
+          | some g => "m" ++ encSpans g)))
+  | _ => none
+
+/-- `matchreal <userFlags> <isBytes> <tree> <cwd> <patterns> <exclude> <path>…` → `ok <bits>`:
+    `glob.globmatch(path, patterns, flags=userFlags, root_dir=cwd, exclude=…)` for every path -/
+def handleMatchReal : List String → Option String
+  | fl :: b :: tr :: cw :: ps :: ex :: paths => do
+    let flags ← fl.toNat?
+    let isBytes ← decBool b
+    let top ← decTree tr
+    let cwd ← decRPath (cw.toList.drop 1)
+    let pats ← decPatList ps
+    let excl ← decPatList ex
+    let names ← paths.mapM decStr
+    match compileMatch flags isBytes (pats.getD []).flatten (excl.map List.flatten) with
+    | .error e => pure (encErr e)
+    | .ok o =>
+      let fs : FS := ⟨top, cwd⟩
+      pure ("ok " ++ String.ofList (names.map (fun n => if matchReal fs o n then '1' else '0')))
+  | _ => none
+
+/-- `denotes <userFlags> <isBytes> <full> <fuel> <tree> <cwd> <patterns>` → `ok p p …`: for every
+    (expanded, positive) pattern the paths it denotes (`Spec.denoteTop`), formatted as
+    `_format_path` does (`dir_only` / MARK); `|` separates the patterns -/
+def handleDenotes : List String → Option String
+  | [fl, b, fm, fu, tr, cw, ps] => do
+    let flags ← fl.toNat?
+    let isBytes ← decBool b
+    let full ← decBool fm
+    let fuel ← fu.toNat?
+    let top ← decTree tr
+    let cwd ← decRPath (cw.toList.drop 1)
+    let pats ← decPatList ps
+    let g := GInit.ofNat flags false isBytes false
+    match GlobObj.build g pats none with
+    | .error e => pure (encErr e)
+    | .ok o =>
+      let w := GlobObj.wctx g o
+      let fs : FS := ⟨top, cwd⟩
+      let one := fun (parts : List GPart) =>
+        let d := (parts.getLast?.map (·.dirOnly)).getD false
+        " ".intercalate ((denoteTop fs w.toWalkCfg full fuel parts).map (fun v => "y" ++ encStr (formatPath w d v)))
+      pure (" ".intercalate ("ok" :: o.pattern.map one))
+  | _ => none
+
 def handlers : List (String × (List String → Option String)) :=
-  [("gsplit", handleSplit), ("glob", handleGlob)]
+  [("gsplit", handleSplit), ("glob", handleGlob), ("recap", handleRecap), ("matchreal", handleMatchReal),
+   ("denotes", handleDenotes)]
 
 end WcModel.Driver.Glob
